@@ -493,14 +493,37 @@ func ruleAnchoredRegex(p *Prog, r *Report) {
 		}
 		// the pattern may have been hoisted into a package-level variable
 		if pat == "" {
-			for _, pk := range []string{"ast"} {
-				for _, m := range p.SPkgs[pk].Members {
-					if f, ok := m.(*ssa.Function); ok && f.Name() == "init" {
-						for _, b := range f.Blocks {
-							for _, instr := range b.Instrs {
-								if c, ok := instr.(*ssa.Call); ok {
-									if sc := c.Common().StaticCallee(); sc != nil && sc.Name() == "MustCompile" {
-										_ = sc
+			for _, b := range fn.Blocks {
+				for _, instr := range b.Instrs {
+					c, ok := instr.(*ssa.Call)
+					if !ok {
+						continue
+					}
+					sc := c.Common().StaticCallee()
+					if sc == nil || sc.Name() != "MatchString" || len(c.Common().Args) == 0 {
+						continue
+					}
+					ld, ok := c.Common().Args[0].(*ssa.UnOp)
+					if !ok {
+						continue
+					}
+					g, ok := ld.X.(*ssa.Global)
+					if !ok {
+						continue
+					}
+					usesMatch = true
+					if initFn := p.SPkgs["ast"].Func("init"); initFn != nil {
+						for _, ib := range initFn.Blocks {
+							for _, ii := range ib.Instrs {
+								st, ok := ii.(*ssa.Store)
+								if !ok || st.Addr != ssa.Value(g) {
+									continue
+								}
+								if mc, ok := st.Val.(*ssa.Call); ok {
+									if msc := mc.Common().StaticCallee(); msc != nil && msc.Name() == "MustCompile" {
+										if cs, ok := mc.Common().Args[0].(*ssa.Const); ok && constVal(cs).K == KStr {
+											pat = constVal(cs).S
+										}
 									}
 								}
 							}
